@@ -27,7 +27,7 @@ ASSUMPTIONS = E1_ASSUMPTIONS + [
     "stdout blocks: each page is followed by one or two newline characters (pages end in a newline, so 'one empty line' "
     "is ambiguous by one); order between directories is not constrained",
     "inputs are diagnostic-free by construction (no log line is expected on stdout in stdout mode)"]
-PROBES = ["symlinked_module", "input_through_symlink", "output_dir_from_settings_file", "mode_stdout", "mode_o", "out_nested_deep", "out_parent", "out_prepopulated", "out_stale_page", "out_new_ancestors",
+PROBES = ["module_with_crlf", "hidden_directory", "symlinked_module", "input_through_symlink", "output_dir_from_settings_file", "mode_stdout", "mode_o", "out_nested_deep", "out_parent", "out_prepopulated", "out_stale_page", "out_new_ancestors",
           "out_rel", "out_abs", "single_file_input", "stdout_ge_2_pages", "stdout_multi_dir", "config_dir_absent",
           "fault_fired", "fault_run_failed", "settings_affecting_content"]
 
@@ -47,6 +47,7 @@ def swarm(rng, tier):
         "config_dir_absent": rng.random() < 0.15,
         "single_inputs": rng.random() < 0.4,
         "symlinks": rng.random() < 0.3,
+        "crlf": rng.random() < 0.3,
     }
 
 
@@ -58,6 +59,11 @@ def strategy(cfg):
         auto = draw(st.sampled_from([True, True, False]))
         site = gen.draw_site(draw, loc_pool=c13.SAFE_LOC, tree_kw=tree_kw, auto_exclude=auto)
         recursive = draw(st.sampled_from([True, True, False]))
+        if cfg.get("crlf"):
+            for rel_ in sorted(site.tree):
+                c_ = site.tree[rel_]
+                if isinstance(c_, str) and refs.is_cmake(rel_) and draw(st.booleans()):
+                    site.tree[rel_] = c_.replace("\n", "\r\n")       # a module saved with CRLF line ends
         absent = cfg["config_dir_absent"] and draw(st.booleans())
         files = gen.base_files(site, config_dir_exists=not absent)
         files["cfg"] = None
@@ -94,6 +100,10 @@ def strategy(cfg):
             prepop[posixpath.join(out, "keep.txt")] = "unrelated, must survive\n"
             prepop[posixpath.join(out, "notes/readme.md")] = "unrelated too\n"
             prepop[posixpath.join(out, "zz-handwritten-overview.rst")] = "Hand written\n============\n"
+            if cm_files:
+                f_ = draw(st.sampled_from(cm_files))
+                prepop[posixpath.join(out, refs.stem(f_) + ".rst.tmp")] = "an editor's unrelated scratch copy zz-\n"
+            prepop[posixpath.join(out, "index.rst.tmp")] = "unrelated zz-\n"
             if dirs and draw(st.booleans()):
                 prepop[posixpath.join(out, dirs[0], "zz-design-notes.rst")] = "Design notes, not generated\n"
             if draw(st.booleans()) and cm_files:
@@ -239,6 +249,10 @@ def evaluate(spec, ctx):
                 ctx.probes["out_stale_page"] += 1
         if spec["input_kind"] == "file":
             ctx.probes["single_file_input"] += 1
+        if any(isinstance(c, str) and "\r\n" in c for c in spec["files"].values()):
+            ctx.probes["module_with_crlf"] += 1
+        if any("/." in "/" + k for k in tree):
+            ctx.probes["hidden_directory"] += 1
         if any(isinstance(c, dict) for c in spec["files"].values()):
             ctx.probes["symlinked_module"] += 1
         if any("linkroot" in v["input"] for v in spec["variants"]):
@@ -289,7 +303,7 @@ def evaluate(spec, ctx):
                     viols.append(viol("run-failed", f"{where}: status {res.status} exc {res.exc}"))
                 # unrelated pre-existing files in the output directory are untouched
                 for k, v in spec["prepop"].items():
-                    if k.endswith(".rst") and "zz-" not in k:
+                    if k.endswith(".rst") and "zz-" not in k and "zz-" not in v:
                         continue        # a stale page named like a generated one may be overwritten
                     if k in res.deleted or k in res.changed:
                         viols.append(viol("unrelated-output-file-touched", f"{where}: {k} was changed or deleted"))
